@@ -317,6 +317,9 @@ func (pv *prover) indexOK(x, idx ssa.Value, b *ssa.BasicBlock) (bool, string) {
 		}
 		return false, ""
 	}
+	if sortLessIndex(pv.fn, x, idx) {
+		return true, "G8 sort.Slice less-function indices are in range of the sorted slice"
+	}
 	if !pv.lp.ge0(idx, b) {
 		return false, ""
 	}
@@ -324,6 +327,39 @@ func (pv *prover) indexOK(x, idx ssa.Value, b *ssa.BasicBlock) (bool, string) {
 		return true, "G3"
 	}
 	return false, ""
+}
+
+// sortLessIndex: fn is the less-function literal of sort.Slice/SliceStable(s, less),
+// idx is one of its two parameters and x is the very slice being sorted.
+func sortLessIndex(fn *ssa.Function, x, idx ssa.Value) bool {
+	parent := fn.Parent()
+	prm, isP := idx.(*ssa.Parameter)
+	if parent == nil || !isP || prm.Parent() != fn || len(fn.Params) != 2 {
+		return false
+	}
+	ok := false
+	eachInstr(parent, func(in ssa.Instruction) {
+		c := callCommon(in)
+		if c == nil || len(c.Args) != 2 {
+			return
+		}
+		if !isCallToNamed(c, "sort", "", "Slice") && !isCallToNamed(c, "sort", "", "SliceStable") {
+			return
+		}
+		mc, isMC := c.Args[1].(*ssa.MakeClosure)
+		if !isMC || mc.Fn != ssa.Value(fn) {
+			return
+		}
+		// same variable: the sorted slice and the indexed one render to the same access path
+		sorted := c.Args[0]
+		if mi, isMI := sorted.(*ssa.MakeInterface); isMI {
+			sorted = mi.X
+		}
+		if path(sorted) == path(x) {
+			ok = true
+		}
+	})
+	return ok
 }
 
 // sliceOK: 0 <= lo <= hi <= len(x)   (len, not cap: stronger than needed)
